@@ -104,6 +104,11 @@ func (dmx *Demuxer) NextPacket() (p *Packet, err error) {
 	// Create packet buffer if not exists
 	if dmx.packetBuffer == nil {
 		if dmx.packetBuffer, err = newPacketBuffer(dmx.r, dmx.optPacketSize, dmx.optPacketSkipper); err != nil {
+			// The input ended before the packet size could be detected
+			if errors.Is(err, io.EOF) || errors.Is(err, io.ErrUnexpectedEOF) {
+				err = ErrNoMorePackets
+				return
+			}
 			err = fmt.Errorf("astits: creating packet buffer failed: %w", err)
 			return
 		}
